@@ -23,7 +23,7 @@ fi
 # race-detector variant (plain sources): re-entrancy pass of every check, free-running pass of C13
 build vcheck-race verif -race >"build/build-race-$ID.log" 2>&1 || echo "note: race variant does not build (re-entrancy pass skipped)"
 # 32-bit variant (GOARCH=386): the word-size independent checks run once more inside it (see harness/checks/arch386.go)
-case "$ID" in C01|C02|C03|C04|C05|C06|C07|C08|C09|C10|C11|C12|C14|C15|C16|C17|C18|C19|C20)
+case "$ID" in C01|C02|C03|C04|C05|C06|C07|C08|C09|C10|C11|C12|C13|C14|C15|C16|C17|C18|C19|C20)
   (cd harness && GOARCH=386 CGO_ENABLED=0 go build -tags verif -o ../build/vcheck-386 ./cmd/vcheck) >"build/build-386-$ID.log" 2>&1 || { rm -f build/vcheck-386; echo "note: 386 variant does not build (32-bit pass skipped)"; } ;;
 esac
 # GOAMD64=v3 variant: the word-size generic curl comparison runs inside it (a build constraint may select other assembly)
